@@ -360,6 +360,11 @@ class Table:
         chain = chain[::-1]
         if not isinstance(x, ast.Name):
             # attribute of a computed object: resolve members by name, then classify the receiver expression
+            if isinstance(x, ast.Call) and isinstance(x.func, ast.Name) and x.func.id == "super" and f.cls and chain:
+                for a in self.ancestors(f.cls)[1:]:             # super().m : the bases only
+                    for g in self.classes[a].members.get(chain[0], []): f.refs.add(g.qn)
+                self._members_any(f, chain[1:])
+                return
             self._members_any(f, chain)
             self._expr(f, x, mod, shadow, default_nodes, rng_params)
             return
@@ -527,8 +532,7 @@ def emit(tab, path):
     A = lines.append
     A("(* GENERATED by harness/translate/c08_entropy.py from the pybrops working tree — do not edit.")
     A("   node = (id, direct entropy-source mask, referenced nodes);  mask bits: PARAM 1, SELF 2, DEFAULT 4, NP 8, PY 16, OS 32, DROPS 64, IGNORED 128 *)")
-    A("From Coq Require Import List NArith PArith.")
-    A("From Coq Require String.")
+    A("From Coq Require Import List NArith PArith String.")
     A("Import ListNotations.")
     A("Local Open Scope positive_scope.")
     A("Definition node : Type := (positive * N * list positive)%type.")
@@ -547,7 +551,7 @@ def emit(tab, path):
         A("].")
     A("Definition nodes : list node := %s." % " ++ ".join(chunks))
     named = [qn for qn in qns if tab.funcs[qn].direct or tab.funcs[qn].has_rng or qn in comps]
-    A("Definition names : list (String.string * positive) := [")
+    A("Definition names : list (string * positive) := [")
     A(";\n".join(' ("%s"%%string, %d)' % (qn[len("pybrops."):], ix[qn]) for qn in named))
     A("].")
     A("(* functions that accept an rng argument, and all members of classes that own a generator *)")
